@@ -73,6 +73,15 @@ def gen_cases(ctx):
         {"op": "chain", "dicts": [{"a": 1, "b": "x"}, {"a": 2, "b": "y"}], "steps": [{"m": "insert", "item": {"a": 9, "b": "q"}, "index": -1}]},
         {"op": "chain", "dicts": [{"a": None, "b": "x"}, {"a": 2, "b": None}, {"a": 1, "b": "y"}, {"a": 2, "b": "x"}], "steps": [{"m": "sort", "keys": [["a", 1], ["b", -1]]}]},
     ]
+    # the same dict object at two positions (`*`), then an in-place edit whose condition / value reads the key it writes:
+    # a plain loop sees the object, at its second position, as the first visit left it
+    for _ in range(30 if ctx.tier == "quick" else 600):
+        dicts = lodgen.gen_dicts(rng, n=rng.choice([1, 2, 3]))
+        v = rng.choice([d["a"] for d in dicts] + [None])
+        edit = rng.choice([{"m": "modify_if", "pred": ["a", v], "key": "a", "add": rng.randint(1, 3)},
+                           {"m": "modify_if", "pred": ["a", v], "key": "c", "add": 1},
+                           {"m": "modify", "key": "a", "add": rng.randint(1, 3)}])
+        cases.append({"op": "chain", "dicts": dicts, "steps": [{"m": "mul", "n": rng.choice([2, 3])}, edit]})
     n = 500 if ctx.tier == "quick" else 12000
     for _ in range(n):
         dicts = lodgen.gen_dicts(rng)
@@ -198,11 +207,10 @@ def impl(case):
             rec = {"pre": pre}
             dup = len({t for t, kv in pre}) < len(pre)
             if dup and st["m"] in ("modify", "modify_if", "unselect", "fill", "fill_all"):
-                # the same dict object occurs twice (after `*`): in-place edits apply repeatedly,
-                # which the per-entry model does not represent; skipped
-                rec["skipped"] = True
-                steps.append(rec)
-                continue
+                # the same dict object occurs twice (after `*`): an in-place edit is then applied once per occurrence, each
+                # time to the object as the previous occurrence left it — what a plain loop over the list does.  The
+                # per-entry Lean model does not represent shared objects: the step is judged by the reference loop only
+                rec["shared"] = True
             if st["m"] == "group_by":
                 lod = lod.group_by(*st["keys"])       # returns the receiver; nothing to observe
                 rec["skipped"] = True
@@ -272,22 +280,28 @@ def reference(pre, st):
     elif m == "select":
         out = [[None, {k: it[1][k] for k in st["keys"] if k in it[1]}] for it in items]
     elif m == "unselect":
-        out = [[it[0], {k: v for k, v in it[1].items() if k not in st["keys"]}] for it in items]
+        out = [[it[0], {k: v for k, v in it[1].items() if k not in st["keys"]}] for it in items]      # (idempotent per object)
     elif m == "rename":
         ren = {f: t for t, f in st["to_from"]}
         out = [[None, dict((ren.get(k, k), v) for k, v in it[1].items())] for it in items]
-    elif m in ("modify", "modify_if"):
-        out = []
-        for it in items:
-            d = dict(it[1])
-            if m == "modify" or P(it):
-                d[st["key"]] = (d.get("a") or 0) + st["add"]
-            out.append([it[0], d])
-    elif m == "fill":
-        out = [[it[0], {**it[1], **{k: v for k, v in st["kvs"] if k not in it[1]}}] for it in items]
-    elif m == "fill_all":
+    elif m in ("modify", "modify_if", "fill", "fill_all", "unselect_inplace"):
+        # in-place edits: ONE dict per object (tag); an object that occurs twice is visited twice, in list order, and is
+        # seen the second time as the first visit left it
+        store = {}
+        for t, d in items:
+            store.setdefault(t, d)
         keys = list(dict.fromkeys(k for it in items for k in it[1]))
-        out = [[it[0], {**it[1], **{k: None for k in keys if k not in it[1]}}] for it in items]
+        for t, _ in items:
+            d = store[t]
+            if m == "modify" or (m == "modify_if" and pred_fn(st["pred"])(d)):
+                d[st["key"]] = (d.get("a") or 0) + st["add"]
+            elif m == "fill":
+                for k, v in st["kvs"]:
+                    d.setdefault(k, v)
+            elif m == "fill_all":
+                for k in keys:
+                    d.setdefault(k, None)
+        out = [[t, store[t]] for t, _ in items]
     elif m == "append":
         out = items + [[None, dict(st["item"])]]
     elif m in ("extend", "add"):
@@ -312,7 +326,7 @@ def reference(pre, st):
 def model_requests(case, obs):
     reqs = []
     for st, rec in zip(case["steps"], obs["steps"]):
-        if rec.get("skipped"):
+        if rec.get("skipped") or rec.get("shared"):
             reqs.append(("lod_reverse", {"xs": []}))
             continue
         if "post" not in rec:
@@ -423,7 +437,9 @@ def judge(ctx, case, obs, mouts):
             ctx.violation("oracle", f"{m}:type", "result is not a ListOfDicts of attribute-accessible items", sub, rec)
         if len(rec["pre"]) >= 2 and got != rec["pre"]:
             nontrivial = True
-        if mouts is not None and idx < len(mouts):
+        if rec.get("shared"):
+            ctx.count("shared-object-edit")
+        if mouts is not None and idx < len(mouts) and not rec.get("shared"):
             mo = mouts[idx]
             if isinstance(mo, dict) and "err" in mo:
                 ctx.violation("correspondence", f"{m}:model-error", f"model rejected the request: {mo['err']}", sub, rec, mo)
